@@ -279,7 +279,12 @@ func (s *store) dispatchRequests() {
 				req.response <- s.update(req.username, req.password)
 			} else {
 				wdl.Printf("upgrade(local): upgrading '%s'", req.username)
-				if resp := s.update(req.username, req.password); resp.err != nil {
+				// The upgrade was queued when the user logged in. Since then the password may have
+				// been changed or the user removed: only re-hash if this still is the current
+				// password and the hash still needs an upgrade.
+				if ok, _, upgradeable, _, _ := s.dir.Authenticate(req.username, req.password); !ok || !upgradeable {
+					wdl.Printf("upgrade(local): skipping outdated upgrade for '%s'", req.username)
+				} else if resp := s.update(req.username, req.password); resp.err != nil {
 					wl.Printf("upgrade(local): failed for '%s': %v", req.username, resp.err)
 				} else {
 					wdl.Printf("upgrade(local): successfully upgraded '%s'", req.username)
